@@ -1,7 +1,78 @@
-(** C07 — every sort returns the sorted permutation of its input (first, minimal version). *)
-From Algo.C07 Require Import Model.
+(** C07 — Every sort returns the sorted permutation of its input, over all values.
+    Statements only; every proof is [exact]/[apply] of a lemma of C07/Proofs*.v.
+
+    The model (C07/Model.v) transcribes /repo/sort/*.go and /repo/radixsort/*.go: slices are lists
+    accessed through [get]/[set]/[swap] (an index out of range is the result [Panic]), data-dependent
+    loops run on fuel (exhaustion is the result [Hang]), RNG draws are an oracle [rnd : Z -> Z].
+    [sorts_to le r a] says: the run [r] returns [Ok b] (no panic, no hang) with [Permutation a b]
+    and [Sorted le b].  [TotalPreorder cmp]: [cmp x y < 0 <-> 0 < cmp y x] and [cmp _ _ <= 0] is
+    transitive (a Go comparator that is a total preorder; equal-comparing elements may differ). *)
+From Algo.C07 Require Import Model Spec ArrLemmas ProofsInsSel ProofsShell ProofsMerge ProofsHeap ProofsQuick.
 Open Scope Z_scope.
 
-Example C07_example_insertion :
-  Insertion Z.sub [3; 1; 2] = Ok [1; 2; 3].
+Section ComparisonSorts.
+  Context {T : Type} (cmp : T -> T -> Z) (TP : TotalPreorder cmp).
+
+  Theorem C07_Selection : forall a : list T, sorts_to (cle cmp) (Selection cmp a) a.
+  Proof. exact (Selection_correct T cmp TP). Qed.
+
+  Theorem C07_Insertion : forall a : list T, sorts_to (cle cmp) (Insertion cmp a) a.
+  Proof. exact (Insertion_correct T cmp TP). Qed.
+
+  Theorem C07_Shell : forall a : list T, sorts_to (cle cmp) (Shell cmp a) a.
+  Proof. exact (Shell_correct T cmp TP). Qed.
+
+  (** Merge (bottom-up) and MergeRec; [zero] is the zero value of [T] filling [make([]T, n)]. *)
+  Theorem C07_Merge : forall (zero : T) (a : list T), sorts_to (cle cmp) (Merge cmp zero a) a.
+  Proof. exact (Merge_correct T cmp TP). Qed.
+
+  Theorem C07_MergeRec : forall (zero : T) (a : list T), sorts_to (cle cmp) (MergeRec cmp zero a) a.
+  Proof. exact (MergeRec_correct T cmp TP). Qed.
+
+  (** [zero] is the zero value of [T] that [append([]T{zero}, a...)] puts in the unused slot 0. *)
+  Theorem C07_Heap : forall (zero : T) (a : list T), sorts_to (cle cmp) (Heap cmp zero a) a.
+  Proof. exact (Heap_correct T cmp TP). Qed.
+
+  (** Quick: for every RNG oracle (every outcome of the time-seeded shuffle, hence every pivot choice). *)
+  Theorem C07_Quick : forall (rnd : Z -> Z) (a : list T), sorts_to (cle cmp) (Quick cmp rnd a) a.
+  Proof. exact (Quick_correct T cmp TP). Qed.
+
+  (** the unshuffled core (what the VerifQuick hook runs) *)
+  Theorem C07_QuickCore : forall a : list T, sorts_to (cle cmp) (QuickCore cmp a) a.
+  Proof. exact (QuickCore_correct T cmp TP). Qed.
+
+  Theorem C07_Quick3Way : forall a : list T, sorts_to (cle cmp) (Quick3Way cmp a) a.
+  Proof. exact (Quick3Way_correct T cmp TP). Qed.
+
+  (** Select(a, k) returns, for every RNG oracle and every valid rank, an element of [a] that is
+      equivalent to position [k] of every sorted permutation of [a]. *)
+  Theorem C07_Select : forall (rnd : Z -> Z) (a : list T) (k : Z), 0 <= k < len a ->
+    exists a' x, Select cmp rnd a k = Ok (a', x) /\ Permutation a a' /\ has_rank cmp a k x.
+  Proof. exact (Select_correct T cmp TP). Qed.
+End ComparisonSorts.
+
+(** Shuffle yields a permutation for every RNG oracle (no comparator involved). *)
+Theorem C07_Shuffle : forall (T : Type) (rnd : Z -> Z) (a : list T),
+  exists b, Shuffle rnd a = Ok b /\ Permutation a b.
+Proof. intros. apply Shuffle_perm. Qed.
+
+(** Non-vacuity: concrete runs (a comparator on pairs that ignores the second component). *)
+Example C07_example :
+  let cmp := fun x y : Z * Z => fst x - fst y in
+  let a := [(3, 0); (1, 1); (2, 2); (1, 3); (3, 4)] in
+  (Insertion cmp a, Selection cmp a, Heap cmp (0, 0) a, QuickCore cmp a) =
+  (Ok [(1, 1); (1, 3); (2, 2); (3, 0); (3, 4)], Ok [(1, 1); (1, 3); (2, 2); (3, 0); (3, 4)],
+   Ok [(1, 1); (1, 3); (2, 2); (3, 4); (3, 0)], Ok [(1, 1); (1, 3); (2, 2); (3, 4); (3, 0)]).
 Proof. vm_compute. reflexivity. Qed.
+
+Print Assumptions C07_Selection.
+Print Assumptions C07_Insertion.
+Print Assumptions C07_Shell.
+Print Assumptions C07_Merge.
+Print Assumptions C07_MergeRec.
+Print Assumptions C07_Heap.
+Print Assumptions C07_Quick.
+Print Assumptions C07_QuickCore.
+Print Assumptions C07_Quick3Way.
+Print Assumptions C07_Select.
+Print Assumptions C07_Shuffle.
